@@ -78,14 +78,32 @@ pub fn counting(ctx: &mut Ctx) {
         let txt = match &r { Ok(Ok(v)) => v.clone(), _ => "ERR".to_string() };
         ctx.line(&format!("jac f32 {} | {}", sa, sb), &txt);
         if mismatch { expect_err(ctx, "superminhasher::compute_superminhash_jaccard<f32>", false, &r, &a, &b); }
+        if let Some(_) = truth {
+            let t = f32hx(a.iter().zip(b.iter()).filter(|(x, y)| x == y).count() as f32 / n as f32);
+            if txt != t {
+                ctx.oracle_failure(serde_json::json!({"kind":"impl_violates_property","what":"superminhasher::compute_superminhash_jaccard<f32>: not count/len (f32)","a":a,"b":b,"got":txt,"want":t}));
+            }
+        }
         let r = catch(|| superminhasher2::compute_superminhash_jaccard(&a, &b).map(f32hx).map_err(|_| "err".to_string()));
         let txt = match &r { Ok(Ok(v)) => v.clone(), _ => "ERR".to_string() };
         ctx.line(&format!("jac f32 {} | {}", sa, sb), &txt);
         if mismatch { expect_err(ctx, "superminhasher2::compute_superminhash_jaccard<u64>", false, &r, &a, &b); }
+        // single precision entry points: exactly the correctly rounded quotient count / length
+        let truth32 = truth.map(|_| f32hx(a.iter().zip(b.iter()).filter(|(x, y)| x == y).count() as f32 / n as f32));
+        if let Some(t) = &truth32 {
+            if &txt != t {
+                ctx.oracle_failure(serde_json::json!({"kind":"impl_violates_property","what":"superminhasher2::compute_superminhash_jaccard<u64>: not count/len (f32)","a":a,"b":b,"got":txt,"want":t}));
+            }
+        }
         let r = catch(|| superminhasher2::get_jaccard_index_estimate(&au32, &bu32).map(f32hx).map_err(|_| "err".to_string()));
         let txt = match &r { Ok(Ok(v)) => v.clone(), _ => "ERR".to_string() };
         ctx.line(&format!("jac f32 {} | {}", sa, sb), &txt);
         if mismatch { expect_err(ctx, "superminhasher2::get_jaccard_index_estimate<u32>", false, &r, &a, &b); }
+        if let Some(t) = &truth32 {
+            if &txt != t {
+                ctx.oracle_failure(serde_json::json!({"kind":"impl_violates_property","what":"superminhasher2::get_jaccard_index_estimate<u32>: not count/len (f32)","a":a,"b":b,"got":txt,"want":t}));
+            }
+        }
         // near ties and non-finite values: positions are equal only if the VALUES are equal (1 ulp apart is different,
         // inf equals inf); NaN and signed zeros are avoided because `==` and bit equality differ there
         if !mismatch {
